@@ -322,7 +322,7 @@ theorem docShape_reqsInRange (n : Nat) (reqs opts : List String) (rest : Option 
 /-- one step of `captureScope` -/
 def captureStep (env : List Frame) (sc : Frame) (y : String) : Frame :=
   match envGet env y with
-  | some v => if isBuiltinIdent y then sc else insertAL y v sc
+  | some v => insertAL y v sc
   | none => sc
 
 theorem captureScope_eq (env : List Frame) (vars : List String) :
@@ -330,12 +330,12 @@ theorem captureScope_eq (env : List Frame) (vars : List String) :
 
 theorem captureScope_go_lookup (env : List Frame) (x : String) : ∀ (vars : List String) (sc : Frame),
     lookupAL x (vars.foldl (captureStep env) sc) =
-      if x ∈ vars ∧ isBuiltinIdent x = false ∧ (envGet env x).isSome then envGet env x else lookupAL x sc
+      if x ∈ vars ∧ (envGet env x).isSome then envGet env x else lookupAL x sc
   | [], sc => by simp
   | y :: vars, sc => by
     rw [List.foldl_cons, captureScope_go_lookup env x vars]
-    by_cases hin : x ∈ vars ∧ isBuiltinIdent x = false ∧ (envGet env x).isSome
-    · have : x ∈ y :: vars ∧ isBuiltinIdent x = false ∧ (envGet env x).isSome :=
+    by_cases hin : x ∈ vars ∧ (envGet env x).isSome
+    · have : x ∈ y :: vars ∧ (envGet env x).isSome :=
         ⟨List.mem_cons_of_mem _ hin.1, hin.2⟩
       rw [if_pos hin, if_pos this]
     · rw [if_neg hin]
@@ -344,35 +344,26 @@ theorem captureScope_go_lookup (env : List Frame) (x : String) : ∀ (vars : Lis
         unfold captureStep
         cases hg : envGet env x with
         | none => simp
-        | some v =>
-          by_cases hb : isBuiltinIdent x = true
-          · simp [hb]
-          · simp [hb, lookupAL_insertAL_self]
-      · have h2 : (x ∈ y :: vars ∧ isBuiltinIdent x = false ∧ (envGet env x).isSome) ↔
-            (x ∈ vars ∧ isBuiltinIdent x = false ∧ (envGet env x).isSome) := by
+        | some v => simp [lookupAL_insertAL_self]
+      · have h2 : (x ∈ y :: vars ∧ (envGet env x).isSome) ↔ (x ∈ vars ∧ (envGet env x).isSome) := by
           simp [hxy]
         rw [if_neg (fun h => hin (h2.mp h))]
         unfold captureStep
         cases hg : envGet env y with
         | none => rfl
-        | some v =>
-          simp only
-          split
-          · rfl
-          · exact lookupAL_insertAL_ne y x v hxy sc
+        | some v => exact lookupAL_insertAL_ne y x v hxy sc
 
-/-- what a new function captures: exactly the listed names that are visible now and are not
-    built-in names, each with its current value — whatever the order of `vars` -/
+/-- what a new function captures: exactly the listed names that are visible now, each with its
+    current value — whatever the order of `vars` -/
 theorem captureScope_lookup (env : List Frame) (vars : List String) (x : String) :
-    lookupAL x (captureScope env vars) =
-      if x ∈ vars ∧ isBuiltinIdent x = false then envGet env x else none := by
+    lookupAL x (captureScope env vars) = if x ∈ vars then envGet env x else none := by
   rw [captureScope_eq, captureScope_go_lookup]
-  by_cases h : x ∈ vars ∧ isBuiltinIdent x = false
+  by_cases h : x ∈ vars
   · rw [if_pos h]
     cases hg : envGet env x with
     | none => simp [lookupAL]
-    | some v => simp [h.1, h.2]
-  · rw [if_neg h, if_neg (fun h' => h ⟨h'.1, h'.2.1⟩)]; rfl
+    | some v => simp [h]
+  · rw [if_neg h, if_neg (fun h' => h h'.1)]; rfl
 
 theorem captureScope_nodup (env : List Frame) (vars : List String) :
     ((captureScope env vars).map Prod.fst).Nodup := by
@@ -388,9 +379,7 @@ theorem captureScope_nodup (env : List Frame) (vars : List String) :
     apply ih
     unfold captureStep
     split
-    · split
-      · exact h
-      · exact insertAL_nodup _ _ _ h
+    · exact insertAL_nodup _ _ _ h
     · exact h
 
 /-! ### the environment a function body runs in -/
